@@ -21,7 +21,7 @@ VARIANTS[-1]["name"] = "fixed(" + VARIANTS[-1]["name"] + ")"
 
 RULE = ("a case is a history over the names a,b,c (+ core.Dataset): create (plain / proxy / virtual / public namespaces), delete, "
         "rename (also onto deleted and existing names), re-create, public-namespace updates of a meta entity through a batch or a "
-        "transaction on core.Dataset (incl. removal), batches and multi-dataset transactions over a 3-6 id pool (repeated ids in a "
+        "transaction on core.Dataset (incl. removal), several meta entities (live ones and tombstones) posted back in one batch, batches and multi-dataset transactions over a 3-6 id pool (repeated ids in a "
         "batch, identical re-posts, ids known from other datasets, ids first seen as reference targets), and forced two-actor "
         "schedules (writer paused between reading and storing its meta entity while a second writer / delete / rename / "
         "public-namespace update runs; writer paused before its id commit while another writer's batch is accepted or rejected, "
@@ -169,6 +169,8 @@ def term(c, o):
             terms.append("SDetails %s %s" % (vlib.coq_list([str(ncode(n)) for n in names]), snapshot_term(names, oo)))
         elif k == "restart":
             continue
+        elif k == "setpubnsm":
+            terms.append("SPubM %s" % vlib.coq_list(["(%d, %s)" % (ncode(it["ds"]), opt(pcode(it.get("pubns")))) for it in op["items"]]))
         elif k == "concurrent_pair":
             terms.append("%s %d %s (%s) %s %s" % ("SPairC" if op.get("at") == "commit" else "SPair", ncode(op["ds"]), ents_term(op["ents"], oo.get("lens")),
                                                      cop_term(op["b"], oo.get("blens")), vlib.coq_bool(oo.get("reached", False)),
@@ -234,6 +236,18 @@ def witness_cases():
             {"op": "concurrent_pair", "ds": "a", "ents": [E("e6")], "b": {"op": "setpubns", "ds": "a", "pubns": ["http://x/"], "via": "batch"}}, DET,
             {"op": "concurrent_pair", "ds": "a", "ents": [E("e7")], "b": {"op": "rename", "ds": "a", "to": "c"}}, DET,
             {"op": "concurrent_pair", "ds": "b", "ents": [E("e8")], "b": {"op": "delete", "ds": "b"}}, DET]},
+        # several meta entities posted back to core.Dataset in one batch: the tombstone of a deleted dataset (with
+        # publicNamespaces) in front of live datasets whose publicNamespaces change; every posted entity is synced
+        {"datasets": ["b", "c"], "names": ALLN, "ops": [
+            {"op": "create", "ds": "a", "set": {"pubns": ["http://x/"]}},
+            {"op": "batch", "ds": "b", "ents": [E("e1")]},
+            {"op": "delete", "ds": "a"}, DET,
+            {"op": "setpubnsm", "items": [{"ds": "a", "pubns": ["http://x/"]}, {"ds": "b", "pubns": ["http://y/", "http://z/"]},
+                                          {"ds": "c", "pubns": ["http://w/"]}]}, DET,
+            {"op": "restart"}, DET,
+            {"op": "setpubnsm", "items": [{"ds": "c", "pubns": ["http://x/"]}, {"ds": "a", "pubns": ["http://w/"]},
+                                          {"ds": "zz", "pubns": ["http://w/"]}, {"ds": "b", "pubns": ["http://w/"]}]}, DET,
+            {"op": "batch", "ds": "b", "ents": [E("e2")]}, DET]},
         # writer held before its id commit while another writer's batch to a different dataset is rejected / accepted;
         # then the same entities are stored again: counted once, one latest version per id
         {"datasets": ["a", "b"], "names": ALLN, "ops": [
@@ -306,6 +320,12 @@ def gen_case(rng, nops, pairs=True):
                 live[live.index(n)] = m
                 for k in [k for k in memo if k[0] == n]:
                     memo[(m, k[1])] = memo.pop(k)
+        elif r < 17 and rng.chance(1, 3):
+            names = list(NAMES)                       # existing, deleted and never created names, each once
+            rng.shuffle(names)
+            names = names[:rng.range(2, 3)]
+            ops.append({"op": "setpubnsm", "items": [{"ds": n, "pubns": rng.choice(PUBVALS[:3] if rng.chance(4, 5) else PUBVALS)}
+                                                     for n in names]})
         elif r < 17 and live:
             ops.append({"op": "setpubns", "ds": rng.choice(live), "pubns": rng.choice(PUBVALS), "via": rng.choice(["batch", "batch", "txn"])})
         elif r < 18 and live and pairs and rng.chance(1, 2):
@@ -416,7 +436,8 @@ def attribute(c, o):
             return "F19b"
         if any(op["op"] == "setpubns" and op.get("via") == "txn" for op in c["ops"]):
             return "F19d"
-        if any(op["op"] == "setpubns" and not op.get("pubns") for op in c["ops"]):
+        if any((op["op"] == "setpubns" and not op.get("pubns")) or
+               (op["op"] == "setpubnsm" and any(not it.get("pubns") for it in op["items"])) for op in c["ops"]):
             return "F19e"
         return None
     if "F19c" in f:
@@ -448,7 +469,7 @@ def classify(c, o):
 
 def tags(c, o):
     t = []
-    for k in ("create", "delete", "rename", "setpubns", "batch", "txn", "concurrent_pair", "restart"):
+    for k in ("create", "delete", "rename", "setpubns", "setpubnsm", "batch", "txn", "concurrent_pair", "restart"):
         if any(op["op"] == k for op in c["ops"]):
             t.append("has-" + k)
     t.append("outcome=" + o.get("outcome", "?"))
